@@ -135,6 +135,29 @@ EncryptA == \E dst \in Reg, src \in Full, k \in Keys :
 DecryptA == \E dst \in Reg, src \in Full, k \in Keys :
               Call("decrypt", dst, <<src, k>>, Decrypt(reg[src], k))
 
+(* ---- adversary: a key holder / anyone able to assemble elements by hand -----------*)
+(* an encrypted element whose plaintext does not hash to the digest it declares *)
+ForgeEncryptedA == \E dst \in Reg, rp \in Full, rd \in Full, k \in Keys :
+              /\ Dg(reg[rp]) # Dg(reg[rd])
+              /\ Call("forge_encrypted", dst, <<rp, rd, k>>,
+                      Ok(Enc(Dg(reg[rd]), k, <<FreshId, << >> >>, reg[rp], "ok")))
+(* one authenticated field of an encrypted subject altered *)
+TamperFields == {"ciphertext", "nonce", "tag", "aad"}
+Tampered(x, f) == Enc(IF f = "aad" THEN Absent ELSE x[2], x[3], <<x[4][1], x[4][2], f>>, x[5], "bad")
+TamperA == \E dst \in Reg, src \in Full, f \in TamperFields :
+              /\ IsEnc(Subject(reg[src])) /\ Subject(reg[src])[6] = "ok"
+              /\ Call("tamper", dst, <<src, f>>,
+                      Ok(IF IsNode(reg[src]) THEN Node(Tampered(reg[src][2], f), reg[src][3])
+                                             ELSE Tampered(reg[src], f)))
+(* a compressed element whose content does not hash to the digest it declares *)
+ForgeCompressedA == \E dst \in Reg, rp \in Full, rd \in Full :
+              /\ Dg(reg[rp]) # Dg(reg[rd])
+              /\ Call("forge_compressed", dst, <<rp, rd>>, Ok(Comp(Dg(reg[rd]), reg[rp], "ok")))
+(* the payload of a compressed element corrupted *)
+CorruptA == \E dst \in Reg, src \in Full, how \in {"data", "checksum", "truncate"} :
+              /\ IsComp(reg[src]) /\ reg[src][4] = "ok"
+              /\ Call("corrupt", dst, <<src, how>>, Ok(Comp(reg[src][2], reg[src][3], "bad")))
+
 (* ---- codec ----------------------------------------------------------------------*)
 (* encode to bytes and decode again; the expected result is the source itself *)
 EncodeDecodeA == \E dst \in Reg, src \in Full :
@@ -158,8 +181,10 @@ LookupAnswer(e, p) ==
     optional_object_for_predicate |-> LET r == OptionalObjectForPredicate(e, p) IN
                                       IF IsOk(r) /\ Val(r) # <<"nothing">> THEN Ok(Dg(Val(r))) ELSE r ]
 ObsLookup == \E src \in Full :
-               \/ \E p \in Simple \cup PredicatesIn(reg[src]) :
+               \/ \E p \in Simple :
                      Observe("obs_lookup", <<src, <<"val", p>>>>, LookupAnswer(reg[src], p))
+               \/ \E p \in PredicatesIn(reg[src]) :   \* a predicate present, named by its digest
+                     Observe("obs_lookup", <<src, <<"dig", Dg(p)>>>>, LookupAnswer(reg[src], p))
                \/ \E rp \in Full :
                      Observe("obs_lookup", <<src, <<"reg", rp>>>>, LookupAnswer(reg[src], reg[rp]))
 ObsExtract == \E src \in Full, ty \in ExtractTypes :
